@@ -79,4 +79,8 @@ theorem C18_counterexample_real :
     ¬ ownedOnce (run Cfg.real (init Cfg.real) (.createNode :: .alloc 7 :: List.replicate 512 .createNode)).1 := by
   decide +kernel
 
+/-- **`C18_full` is false** -/
+theorem C18_counterexample_full : ¬ C18_full :=
+  fun h => C18_counterexample_real (h _)
+
 end Nervus.Props.C18
